@@ -1,0 +1,47 @@
+//go:build verif
+
+// Contracts for package generate, checked by /verif/govc. Comment-only file: with the
+// build tag off it does not exist for the compiler.
+
+package generate
+
+//@ uses colors regmon
+
+// ---- SetGradient: register layout, rejections, selectors restored (C19), bit-precise.
+// mon.regs is the selector/register machine of the Destination (spec library regmon): a function of the calls delivered.
+
+//@ filelet S0 (old mon.regs)
+//@ filelet c0 (reg.csel (old mon.regs))
+//@ filelet n0 (reg.nsel (old mon.regs))
+//@ filelet nst (len stops)
+//@ filelet tooMany (bvsgt (len stops) (int 58))
+//@ filelet overlap (bvult (reg.rel (reg.csel (old mon.regs)) #x0a) (len stops))
+//@ filelet accepted (and (not (bvsgt (len stops) (int 58))) (not (bvult (reg.rel (reg.csel (old mon.regs)) #x0a) (len stops))))
+//@ filelet G (select (reg.c mon.regs) (reg.csel (old mon.regs)))
+//@ filelet CB (spec.grad.cbase (ivg.Color.data (select (reg.c mon.regs) (reg.csel (old mon.regs)))))
+//@ filelet NB (spec.grad.nbase (ivg.Color.data (select (reg.c mon.regs) (reg.csel (old mon.regs)))))
+//@ filelet TRD tr.ivg.Destination
+
+//@ contract (*Generator).SetGradient
+//@   requires (not (= d.Destination nil.Iface))
+//@   requires [sel6] (reg.inv mon.regs)
+//@   requires [stops.nonnil] (forall ((a!n (_ BitVec 64))) (! (=> (and (bvule (off stops) a!n) (bvult a!n (bvadd (off stops) (len stops)))) (not (= (generate.GradientStop.Color (select (arr stops) a!n)) nil.Iface))) :pattern ((select (arr stops) a!n))))
+//@   modifies tr.ivg.Destination mon.regs
+//@   ensures [C19.reject.toomany] (=> tooMany (and (= result (ifaceas Error (strlit "ivg: too many gradient stops"))) (= TRD (old TRD))))
+//@   ensures [C19.reject.overlap] (=> (and (not tooMany) overlap) (and (= result (ifaceas Error (strlit "ivg: CSEL used as both gradient and stop"))) (= TRD (old TRD))))
+//@   ensures [C19.accept] (=> accepted (= result nil.Iface))
+//@   ensures [C19.sel.restored] (and (= (reg.csel mon.regs) c0) (= (reg.nsel mon.regs) n0))
+//@   ensures [C19.reg.gradient] (=> accepted (and (= (ivg.Color.typ G) #x00) (spec.isGradient (ivg.Color.data G)) (= (spec.grad.shape (ivg.Color.data G)) (bvand shape #x01)) (= (spec.grad.spread (ivg.Color.data G)) (bvand spread #x03)) (= ((_ zero_extend 56) (spec.grad.nstops (ivg.Color.data G))) nst)))
+//@   ensures [C19.reg.stops] (=> accepted (forall ((k!s (_ BitVec 8))) (=> (and (bvult k!s #x40) (bvult (reg.rel k!s CB) nst)) (and (= (select (reg.c mon.regs) k!s) (gen.stopColor (generate.GradientStop.Color (at stops (reg.rel k!s CB))))) (= (select (reg.n mon.regs) k!s) (generate.GradientStop.Offset (at stops (reg.rel k!s NB))))))))
+//@   ensures [C19.reg.matrix] (=> accepted (and (= (select (reg.n mon.regs) (reg.idx NB #x06)) (select transform (int 0))) (= (select (reg.n mon.regs) (reg.idx NB #x05)) (select transform (int 1))) (= (select (reg.n mon.regs) (reg.idx NB #x04)) (select transform (int 2))) (= (select (reg.n mon.regs) (reg.idx NB #x03)) (select transform (int 3))) (= (select (reg.n mon.regs) (reg.idx NB #x02)) (select transform (int 4))) (= (select (reg.n mon.regs) (reg.idx NB #x01)) (select transform (int 5)))))
+//@   ensures [C19.reg.frame.c] (=> accepted (forall ((k!s (_ BitVec 8))) (=> (and (bvult k!s #x40) (not (= k!s c0)) (bvuge (reg.rel k!s CB) nst)) (= (select (reg.c mon.regs) k!s) (select (reg.c S0) k!s)))))
+//@   ensures [C19.reg.frame.n] (=> accepted (forall ((k!s (_ BitVec 8))) (=> (and (bvult k!s #x40) (bvuge (reg.rel k!s NB) nst) (bvult (reg.rel k!s NB) (int 58))) (= (select (reg.n mon.regs) k!s) (select (reg.n S0) k!s)))))
+//@   unroll 0 6
+//@   let K (bvadd rangeindex (int 1))
+//@   let K8 ((_ extract 7 0) (bvadd rangeindex (int 1)))
+//@   invariant 1 [stops.count] (and (bvsle (int 0) K) (bvsle K nst))
+//@   invariant 1 [stops.sel] (and (= (reg.csel mon.regs) (bvand (bvadd #x0a K8) #x3f)) (= (reg.nsel mon.regs) (bvand (bvadd #x0a K8) #x3f)))
+//@   invariant 1 [stops.gradient] (and (= (ivg.Color.typ G) #x00) (spec.isGradient (ivg.Color.data G)) (= CB #x0a) (= NB #x0a) (= (spec.grad.shape (ivg.Color.data G)) (bvand shape #x01)) (= (spec.grad.spread (ivg.Color.data G)) (bvand spread #x03)) (= ((_ zero_extend 56) (spec.grad.nstops (ivg.Color.data G))) nst))
+//@   invariant 1 [stops.written] (forall ((k!s (_ BitVec 8))) (=> (and (bvult k!s #x40) (bvult (reg.rel k!s #x0a) K)) (and (= (select (reg.c mon.regs) k!s) (gen.stopColor (generate.GradientStop.Color (at stops (reg.rel k!s #x0a))))) (= (select (reg.n mon.regs) k!s) (generate.GradientStop.Offset (at stops (reg.rel k!s #x0a)))))))
+//@   invariant 1 [stops.matrix] (and (= (select (reg.n mon.regs) #x04) (select transform (int 0))) (= (select (reg.n mon.regs) #x05) (select transform (int 1))) (= (select (reg.n mon.regs) #x06) (select transform (int 2))) (= (select (reg.n mon.regs) #x07) (select transform (int 3))) (= (select (reg.n mon.regs) #x08) (select transform (int 4))) (= (select (reg.n mon.regs) #x09) (select transform (int 5))))
+//@   invariant 1 [stops.frame] (forall ((k!s (_ BitVec 8))) (=> (and (bvult k!s #x40) (bvuge (reg.rel k!s #x0a) K)) (and (=> (not (= k!s c0)) (= (select (reg.c mon.regs) k!s) (select (reg.c S0) k!s))) (=> (bvult (reg.rel k!s #x0a) (int 58)) (= (select (reg.n mon.regs) k!s) (select (reg.n S0) k!s))))))
